@@ -197,6 +197,9 @@ def check(ctx):
     # ---- G5 / G6 boundary word and fill value, on every pad path
     for wname, widths in (("zero widths", {AX: (0, 0)}), ("non-zero widths", {AX: (1, 0)}), ("no widths", None)):
         B.must_raise("G5", padfi, f"unknown boundary word, scalar, {wname}", lambda widths=widths: run_pad(P, "bogus", None, widths))
+        # a word that happens to be falsy is an unknown word like any other (not "nothing given")
+        B.must_raise("G5", padfi, f"empty string as boundary word, {wname}", lambda widths=widths: run_pad(P, "", None, widths))
+        B.must_raise("G6", padfi, f"empty tuple as fill value, {wname}", lambda widths=widths: run_pad(P, "fill", (), widths))
         B.must_raise("G5", padfi, f"unknown boundary word for one axis of a mapping, {wname}", lambda widths=widths: run_pad(P, {AY: "bogus"}, None, widths))
         B.must_raise("G6", padfi, f"non-numeric fill value, scalar, {wname}", lambda widths=widths: run_pad(P, None, "abc", widths))
         B.must_raise("G6", padfi, f"non-numeric fill value for one axis of a mapping, {wname}", lambda widths=widths: run_pad(P, "fill", {AX: None, AY: "abc"}, widths) if False else run_pad(P, "fill", {AY: "abc"}, widths))
